@@ -63,7 +63,7 @@ func main() {
 	f, err := os.Open(os.Args[3])
 	must(err)
 	ctx := context.Background()
-	bucket := storage.MustNewBucketName("cw")
+	bucket := storage.MustNewBucketName("cwbucket")
 	must(st.CreateBucket(ctx, bucket))
 	sc := bufio.NewScanner(f)
 	sc.Buffer(make([]byte, 1<<22), 1<<22)
